@@ -786,3 +786,17 @@ pub fn seq_of(idx: u64, n: u64, k: usize) -> Vec<usize> {
 pub fn pow(n: u64, k: u32) -> u64 {
     n.pow(k)
 }
+
+
+/// A reader that hands out its bytes one per read call (every byte is the first byte of a read).
+pub struct OneByte<'a>(pub &'a [u8], pub usize);
+impl std::io::Read for OneByte<'_> {
+    fn read(&mut self, buf: &mut [u8]) -> std::io::Result<usize> {
+        if buf.is_empty() || self.1 >= self.0.len() {
+            return Ok(0);
+        }
+        buf[0] = self.0[self.1];
+        self.1 += 1;
+        Ok(1)
+    }
+}
